@@ -218,9 +218,9 @@ Definition is_revision_format (s : bytes) : bool :=
 (** last element: Go [x[len(x)-1]] *)
 Definition idx_last {A} (l : list A) : res A := idx l (zlen l - 1)%Z.
 
-(** ParseChainID: returns 0 when not in revision format; explicit [panic] when ParseUint fails
-    ("sanity check: error should always be nil since regex only allows numbers" — but the regex does not
-    bound the number of digits, so ParseUint can fail with a range error). *)
+(** ParseChainID: returns 0 when not in revision format, and also (since the fix d71d2e9; before it this
+    branch was an explicit [panic]) when ParseUint fails: the regex does not bound the number of digits, so a
+    revision >= 2^64 gives a range error. *)
 Definition parse_chain_id (chainID : bytes) : res N :=
   if negb (is_revision_format chainID) then Ok 0
   else
@@ -228,7 +228,7 @@ Definition parse_chain_id (chainID : bytes) : res N :=
     do lst <- idx_last splitStr;
     match parse_uint64 lst with
     | Some n => Ok n
-    | None => Panic
+    | None => Ok 0
     end.
 
 (** SetRevisionNumber(chainID, revision) *)
